@@ -1141,9 +1141,14 @@ class Engine:
         for nm, expr in c.requires.items():
             g = self.eval_clause(it, expr, sfr)
             ctx.assume(zbool(g) if not isinstance(g, bool) else g)
+        self.obl_regimes = []
         for rg in regimes:
             if rg.get("kind") == "input":
                 g = self.eval_clause(it, rg["predicate"], sfr)
+                if rg.get("obligations"):
+                    # the finding concerns only these clauses: they are checked outside the regime, all others everywhere
+                    self.obl_regimes.append((rg["obligations"], g, rg.get("id", "?")))
+                    continue
                 ctx.assume(z3.Not(zbool(g)) if not isinstance(g, bool) else (not g))
         if rep.cover_ok is None:
             r = ctx.solver.check()
@@ -1199,6 +1204,13 @@ class Engine:
                 except PyRaise as e:
                     ctx.check(f"{short}::ensures.{nm}", False, detail=f"clause raised {e.cls}: {e.msg}")
                     continue
+                for sfx, rg_g, rg_id in getattr(self, "obl_regimes", []):
+                    if f"ensures.{nm}" in sfx:
+                        if isinstance(rg_g, bool):
+                            g = True if rg_g else g
+                        else:
+                            g = z3.Implies(z3.Not(zbool(rg_g)), zbool(g) if not isinstance(g, bool) else z3.BoolVal(g))
+                        ctx.trusted.add(f"known finding {rg_id}: clause ensures.{nm} is checked only outside the finding's input regime")
                 ctx.check(f"{short}::ensures.{nm}", g)
             self.check_frame(it, c, short, old_heap, old_locals)
         else:
